@@ -73,14 +73,7 @@ package main
 //@   pure
 //@   ensures res == isGoKeyword(name)
 
-// strings.ToLower of a single byte: identity unless an upper-case ASCII
-// letter (the plugin's names are Go identifiers derived from proto
-// identifiers, which are ASCII); the result has the same length.
-//@ trusted func strings.ToLower(s) res
-//@   pure
-//@   ensures |s| == 1 && s[0] < 128 ==> |res| == 1
-//@   ensures |s| == 1 && 'A' <= s[0] && s[0] <= 'Z' ==> res[0] == s[0] + 32
-//@   ensures |s| == 1 && s[0] < 128 && !('A' <= s[0] && s[0] <= 'Z') ==> res[0] == s[0]
+// strings.ToLower: trusted contract in /verif/specs/10_strconv_strings.spec (one ASCII byte: identity unless an upper-case letter).
 
 //@ func unexport(s) res
 //@   tags C17
